@@ -68,6 +68,22 @@ def compute_mu_h(levy_measure, grid: CTMCGrid, axis: np.array, origin: int) -> f
     return mu_h
 
 
+def cumulate_slices(slices: list[np.array]) -> list[np.array]:
+    """The values of each slice (one slice per product date interval) are cumulated from 0: add the last value of the
+    previous slices so that the whole sequence is the running sum of the jumps.
+
+    :param slices: list of arrays of cumulated values (first dimension: the jumps of the slice)
+    """
+    res, offset = [], 0.0
+    for values in slices:
+        values = np.asarray(values, dtype=float)
+        if len(values):
+            values = values + offset
+            offset = values[-1]
+        res.append(values)
+    return res
+
+
 class MarkovChain:
     """Markov Chain object storing the simulation times, its values and state increments."""
 
@@ -258,7 +274,7 @@ class MCSimulationWithJumpTimes(MCSimulation, SimulationWithJumpTimes):
 
     def simulate_jumps(self):
         mc = self.simulate_markov_chain()
-        jump_values = np.concatenate(mc.values).ravel().astype(float)
+        jump_values = np.concatenate(cumulate_slices(mc.values)).ravel().astype(float)
         jump_times = mc.times
         return jump_times, jump_values
 
